@@ -168,6 +168,24 @@ def _check_tree(acc, cid, tree, enc, dec, via_layer=True):
             acc.count("stream_end_frames")
         except Exception as e:  # noqa
             acc.violation("stream-end-raises:%s" % type(e).__name__, "a stream-end frame between stanzas raised %r" % (e,), w)
+    if _scribble_counter[0] % 13 == 0:
+        # a string the wire format cannot carry (beyond Latin-1): the encoder refuses it, or what is decoded equals what was given;
+        # never something else
+        bad_tree = (tree[0], dict(tree[1], **{"verif-u": "\u0141\u4e2d" + str(_scribble_counter[0] % 10)}), tree[2] if tree[3] is None else [], None if tree[3] is None else None)
+        try:
+            ob = enc.protocolTreeNodeToBytes(treeeq.to_node(bad_tree))
+            bytearray(ob)        # (what the coder layer does next: values that are no bytes are refused there)
+        except Exception:  # noqa
+            acc.count("unencodable_refused")
+        else:
+            acc.count("unencodable_encoded")
+            try:
+                bb = dec.getProtocolTreeNode(list(ob))
+                d_ = treeeq.diff(bad_tree, bb)
+            except Exception as e:  # noqa
+                d_ = "decoder raised %r" % (e,)
+            if d_:
+                acc.violation("unencodable-altered", "a string beyond Latin-1 was neither refused nor carried: %s" % d_, w)
     if _scribble_counter[0] % 7 == 0:
         try:
             from yowsup.structs import ProtocolTreeNode
